@@ -107,6 +107,11 @@ def states(tier):
         for ss in (0, 1):
             for si in ('null', 'pty'):
                 S.append(dict(base, pidns=1, chain=ch, setsid=ss, stdin=si, ptyowner=1))
+    # (b10) the chain inside a new PID namespace with its own /proc: the root process (child of that namespace's pid 1) carries a name of the state's
+    # choosing - with blanks, a tab, a colon, parentheses, 15 bytes
+    for ch in ('init/tmux: server/x', 'init/Web Content', 'init/a\tb/y', 'init/(sd-pam)/z', 'init/fifteen bytes !/w', 'init/ lead', 'init/trail /q'):
+        for ss in (0, 1):
+            S.append(dict(base, pidns=2, chain=ch, setsid=ss))
     # (a) two-value product of every dimension
     two = dict(ids=[(0, 0, 0, 0, 0, 0), (1, 54321, 0, 54321, 1, 0)], setsid=[0, 1], cwd=['root', 'd4000'], stdin=['pty', 'pipe'], env=['three', 'huge'], sudo=[0, 1], host=['-', 'twohost'], chain=['', 'aa/bb'])
     keys = list(two)
@@ -121,7 +126,7 @@ def base_state():
 
 def spec_of(st, ds, work):
     parts = ['ids=%s' % ','.join(map(str, st['ids'])), 'setsid=%d' % st['setsid'], 'cwd=' + st['cwd'], 'stdin=' + st['stdin'], 'env=' + st['env'], 'sudo=%d' % st['sudo'], 'logname=%d' % st['logname'],
-             'host=' + st['host'], 'ptyowner=%d' % st['ptyowner'], 'orphan=%d' % st.get('orphan', 0), 'tz=' + st.get('tz', 'UTC'), 'newpgrp=%d' % st.get('newpgrp', 0), 'pwd=' + st.get('pwd', 'none'), 'exec2=%d' % st.get('exec2', 0), 'forked=%d' % st.get('forked', 0), 'work=' + work, 'ds=' + ','.join(hx(d) for d in ds)] + (['cgfile=' + hx(st['cgfile'])] if st.get('cgfile') else []) + (['etc=' + st['etc']] if st.get('etc') else []) + (['tz2=' + st['tz2']] if st.get('tz2') else []) + (['lognamelast=1'] if st.get('lognamelast') else []) + (['pidns=1'] if st.get('pidns') else [])
+             'host=' + st['host'], 'ptyowner=%d' % st['ptyowner'], 'orphan=%d' % st.get('orphan', 0), 'tz=' + st.get('tz', 'UTC'), 'newpgrp=%d' % st.get('newpgrp', 0), 'pwd=' + st.get('pwd', 'none'), 'exec2=%d' % st.get('exec2', 0), 'forked=%d' % st.get('forked', 0), 'work=' + work, 'ds=' + ','.join(hx(d) for d in ds)] + (['cgfile=' + hx(st['cgfile'])] if st.get('cgfile') else []) + (['etc=' + st['etc']] if st.get('etc') else []) + (['tz2=' + st['tz2']] if st.get('tz2') else []) + (['lognamelast=1'] if st.get('lognamelast') else []) + (['pidns=%d' % st['pidns']] if st.get('pidns') else [])
     if st['chain']:
         parts.append('chain=' + '/'.join(hx(n) for n in st['chain'].split('/')))
     return ';'.join(parts)
@@ -297,7 +302,7 @@ def run(ck):
     samples = []
     for st, (out, r, reports) in zip(S, pmap(one, S)):
         evals += 1
-        tag = ('exec2,' if st.get('exec2') else '') + ('pidns_under_outer_proc,' if st.get('pidns') else '') + 'tz=%s,pg=%d,pwd=%s,forked=%d,' % (st.get('tz', 'UTC'), st.get('newpgrp', 0), st.get('pwd', 'none'), st.get('forked', 0)) + 'ids=%s,sid=%d,cwd=%s,stdin=%s,env=%s,sudo=%d,logname=%d,host=%s,chain=%s,orphan=%d' % ('/'.join(map(str, st['ids'])), st['setsid'], st['cwd'], st['stdin'], st['env'], st['sudo'], st['logname'], st['host'][:8], st['chain'], st.get('orphan', 0))
+        tag = ('exec2,' if st.get('exec2') else '') + ('pidns_under_outer_proc,' if st.get('pidns') == 1 else 'chain_in_container_pidns,' if st.get('pidns') == 2 else '') + 'tz=%s,pg=%d,pwd=%s,forked=%d,' % (st.get('tz', 'UTC'), st.get('newpgrp', 0), st.get('pwd', 'none'), st.get('forked', 0)) + 'ids=%s,sid=%d,cwd=%s,stdin=%s,env=%s,sudo=%d,logname=%d,host=%s,chain=%s,orphan=%d' % ('/'.join(map(str, st['ids'])), st['setsid'], st['cwd'], st['stdin'], st['env'], st['sudo'], st['logname'], st['host'][:8], st['chain'], st.get('orphan', 0))
         if out is None or reports:
             ck.violation('C12:abort:%s' % tag, {'state': st, 'rc': r.returncode, 'stderr': r.stderr.decode('latin-1')[-400:], 'sanitizer': reports[:1]})
             continue
